@@ -4,6 +4,7 @@ package main
 // oracles are evaluated online at every probe (sub-step resolution).
 
 import (
+	"path/filepath"
 	"encoding/json"
 	"fmt"
 	"math"
@@ -189,6 +190,13 @@ func runTrajectoryHook(sc *Scenario, env *Env, oc *OutputCfg, oracles []Oracle, 
 				hooks2 = &hermes.VerifHooks{Substeps: hooks.Substeps} // same sub-step schedule, nothing else
 				nb := res.Stats["bug.days"]
 				defer func() { res.Stats["bug.days"] = nb }()
+			}
+			// stale result files of an earlier run (longer than what this run writes) are already on the real disk
+			for _, p := range disk.Paths() {
+				rel := strings.TrimPrefix(p, root)
+				os.MkdirAll(filepath.Dir(root2+rel), 0o755)
+				os.WriteFile(root2+rel, append(append([]byte{}, disk.Get(p).Data...), []byte("STALE RECORD OF AN EARLIER RUN\r\nSTALE\r\n")...), 0o644)
+				res.add("realdisk.stale-files-planted", 1)
 			}
 			out2 := env.RunSingle(root2, w.Args(extraArgs...), hooks2, nil)
 			if out2.Success == out.Success && out2.Panic == "" {
